@@ -164,6 +164,15 @@ def canonLabels (hc : Color → Nat) : List Color → Asg
 /-- `canonical_triples`: every blank node replaced by `BNode("cb" + labels[node])` -/
 def canonicalTriples (labels : Asg) (g : Graph) : Graph := g.rename labels.fn
 
+/-- `canonical_triples` on the path that needs no search (`self._discrete(coloring)` after the initial `_refine`):
+    labels from the colour hashes of the refined colouring -/
+def canonRefine (H : List Item → Nat) (HT : Term → Nat) (g : Graph) : Graph :=
+  canonicalTriples (canonLabels (Color.hash H HT) (refineInit H HT g)) g
+
+/-- `self._discrete(coloring)` for the blank-node colours after the initial refinement -/
+def refineDiscrete (H : List Item → Nat) (HT : Term → Nat) (g : Graph) : Bool :=
+  (refineInit H HT g).all Color.discrete
+
 /-! ### a concrete (non-cryptographic) instance of the hash parameters, for the driver's diagnostic `refine` op:
     like the code, the colour hash is a SUM of per-item hashes (order-independent) -/
 
